@@ -12,6 +12,7 @@
 -/
 import FtProofs.Lemmas.Intersect
 import FtProofs.Lemmas.Compute
+import FtProofs.Lemmas.MergeInf
 set_option linter.unusedSectionVars false
 set_option linter.unusedSimpArgs false
 set_option linter.unusedVariables false
@@ -191,6 +192,31 @@ theorem roundsCost_round (radix : Option Nat) (lat n k : Nat) :
       else 0 :=
   roundsCost_eq radix lat n k
 
+/-- **Unbounded latency ("N")**: at every reached fiber of the target level, each round merges
+    the lists in groups of `min(radix, k)` through a sorted buffer of list heads; bringing a
+    coordinate into the buffer is charged one comparison per buffered head that is emitted
+    before it (smaller coordinate, or equal coordinate and larger list index) plus one
+    (`insertMerge`, stated on the coordinates themselves — the implementation works on negated
+    coordinates, stacks and `bisect_right` positions). -/
+theorem swaps_infinite (dflt : Int) (e : Nat) (radix : Option Nat) (hr : RadixOk radix) (depth : Nat)
+    (t : Tree Int Int (e + 2 + depth)) (hwf : wfB (e + 2 + depth) t = true) :
+    numSwapsTree dflt e radix Lat.inf depth t = ((mergeNodes dflt e depth t).map (roundsInf radix)).sum := by
+  have hwf := (wfB_iff _ t).1 hwf
+  rw [numSwapsTree_eq_nodes]
+  congr 1
+  apply List.map_congr_left
+  intro lists hl
+  rw [swapsAt_inf radix hr lists, map_pySort_of_sorted lists (mergeNodes_sorted dflt e depth t hwf lists hl)]
+
+/-- the rounds: `roundsInf` unfolded once -/
+theorem roundsInf_round (radix : Option Nat) (lists : List (List Int)) :
+    roundsInf radix lists =
+      if 2 ≤ lists.length ∧ 2 ≤ clampRadix radix lists.length then
+        (((chunks (clampRadix radix lists.length) lists).map insertMerge).map (·.1)).sum +
+          roundsInf radix (((chunks (clampRadix radix lists.length) lists).map insertMerge).map (·.2))
+      else 0 :=
+  roundsInf_eq radix lists
+
 /-- **Payload independence (partial)**: the count is a function of the coordinate skeleton
     alone — PROVIDED every element the walk iterates over is empty exactly when its skeleton
     shows it (`presentAgrees`; it fails for a sub-fiber that stores only explicit defaults,
@@ -215,6 +241,20 @@ theorem swaps_payload_independent_noDefault (dflt : Int) (e : Nat) (radix : Opti
     numSwapsTree dflt e radix lat depth t = numSwapsTree dflt e radix lat depth t' :=
   swaps_payload_independent_partial dflt dflt e radix lat depth t t' hs
     (presentAgrees_of_noDefault dflt e depth t h) (presentAgrees_of_noDefault dflt e depth t' h')
+
+/-- the executable specifications the driver evaluates on the implementation's result
+    (`swapsSpecFin`: closed-form rounds on the skeleton; `swapsSpecInf`: insertion-buffer
+    rounds on the skeleton) are what the model computes — under the same proviso -/
+theorem swaps_finite_skeleton_partial (dflt : Int) (e : Nat) (radix : Option Nat) (hr : RadixOk radix)
+    (lat depth : Nat) (t : Tree Int Int (e + 2 + depth)) (h : presentAgrees dflt e depth t = true) :
+    numSwapsTree dflt e radix (Lat.fin lat) depth t = swapsSpecFin e radix lat depth (skel (e + 2 + depth) t) := by
+  rw [swaps_finite dflt e radix hr lat depth t, mergeNodes_skel dflt e depth t h, swapsSpecFin]
+
+theorem swaps_infinite_skeleton_partial (dflt : Int) (e : Nat) (radix : Option Nat) (hr : RadixOk radix)
+    (depth : Nat) (t : Tree Int Int (e + 2 + depth)) (hwf : wfB (e + 2 + depth) t = true)
+    (h : presentAgrees dflt e depth t = true) :
+    numSwapsTree dflt e radix Lat.inf depth t = swapsSpecInf e radix depth (skel (e + 2 + depth) t) := by
+  rw [swaps_infinite dflt e radix hr depth t hwf, mergeNodes_skel dflt e depth t h, swapsSpecInf]
 
 /-- ranks M, K: M0 ↦ {1: v}, M1 ↦ {2: 5, 3: 5} -/
 def witTree (v : Int) : Tree Int Int 2 :=
@@ -248,5 +288,10 @@ example : RadixOk (some 2) ∧ roundsCost (some 2) 3 8 3 = 63 := by
 example : presentAgrees 0 0 0 (witTree 7) = true ∧ noDefaultLeaf 0 2 (witTree 7) = true ∧
     presentAgrees 0 0 0 (witTree 0) = false := by
   refine ⟨?_, ?_, ?_⟩ <;> decide
+
+/-- non-vacuity (test_num_swaps_undefined_next): three lists in one merge, 15 comparisons -/
+example : (insertMerge [[1, 3, 5], [0, 2, 3], [1, 4]]).1 = 15 := by decide
+
+example : wfB 2 (witTree 7) = true := by decide
 
 end Ft
